@@ -217,6 +217,13 @@ pub(crate) fn hash_bytes_compact(input: &[u8]) -> Result<[u8; 32], &'static str>
     Ok(qp_poseidon_core::hash_to_bytes(&felts))
 }
 
+/// Verification hook (off unless built with `--cfg quantus_network_qp_zk_circuits_verif`):
+/// public entry to the crate-private [`hash_bytes_compact`].
+#[cfg(quantus_network_qp_zk_circuits_verif)]
+pub fn verif_hash_bytes_compact(input: &[u8]) -> Result<[u8; 32], &'static str> {
+    hash_bytes_compact(input)
+}
+
 // ============================================================================
 // Digest serialization (4 felts <-> 32 bytes, 8 bytes/felt)
 // ============================================================================
